@@ -54,8 +54,14 @@ def model_circuits():
     yield "two-instances", build({"a": ("input", []), "u0.clk": ("bb_input", ["a"]), "u0.d": ("bb_input", ["a"]), "u0.q": ("bb_output", []), "u0.qn": ("bb_output", []), "w": ("buf", ["u0.q"]),
                                   "u1.clk": ("bb_input", ["a"]), "u1.d": ("bb_input", ["w"]), "u1.q": ("bb_output", []), "u1.qn": ("bb_output", []), "o": ("buf", ["u1.q"]), "p": ("buf", ["u0.qn"])},
                                  outputs=["o", "p"], name="bb2", blackboxes={"u0": ff, "u1": ff}), [ff]
+    # cell types spelled like a primitive keyword in another letter case (Verilog is case sensitive: BUF, Not, NAND are module names)
+    for tname in ("BUF", "Not", "NAND", "Xor"):
+        cell = RefBlackBox(tname, ["a"], ["y"])
+        yield f"blackbox-type-named-{tname}", build({"i": ("input", []), "u0.a": ("bb_input", ["i"]), "u0.y": ("bb_output", []), "o": ("buf", ["u0.y"])}, outputs=["o"], name="kw", blackboxes={"u0": cell}), [cell]
     yield "escaped-net-on-blackbox-pins", build({"\\d[0]": ("input", []), "ck": ("input", []), "u0.clk": ("bb_input", ["ck"]), "u0.d": ("bb_input", ["\\d[0]"]), "u0.q": ("bb_output", []), "u0.qn": ("bb_output", []),
                                                   "\\q[0]": ("buf", ["u0.q"]), "o": ("not", ["\\q[0]"])}, outputs=["o", "\\q[0]"], name="escbb", blackboxes={"u0": ff}), [ff]
+    # `$` inside a plain identifier is legal Verilog (the writer emits such names as they are)
+    yield "dollar-inside-plain-identifiers", build({"a$1": ("input", []), "b": ("input", []), "n$x": ("nand", ["a$1", "b"]), "o$": ("xor", ["n$x", "a$1"])}, outputs=["o$", "n$x"], name="dollar"), []
     yield "escaped-identifiers-with-a-plain-body", build({"\\en": ("input", []), "en": ("input", []), "\\sum": ("xor", ["\\en", "en"]), "o": ("nand", ["\\sum", "en"])}, outputs=["o", "\\sum"], name="escplain"), []
     yield "escaped-identifiers", build({"\\a[0]": ("input", []), "\\b.x": ("input", []), "\\n$1": ("nand", ["\\a[0]", "\\b.x"]), "o": ("not", ["\\n$1"])}, outputs=["o", "\\n$1"], name="esc"), []
     yield "output-is-input-and-gate-mix", build({"a": ("input", []), "b": ("input", []), "c": ("input", []), "n": ("nor", ["a", "b", "c"]), "x": ("xnor", ["n", "a"]), "y": ("buf", ["x"]), "i": ("not", ["y"])},
